@@ -2,8 +2,9 @@
    Only statements, closed by [exact], refutation witnesses for defects of the pinned code,
    and non-vacuity examples.  Part (c), include = inline, is NOT covered by these theorems.
 
-   (a) registry: Model/Registry.v  (Modules.add, lookup half of Modules.FindModule,
-       Module.Current / FullName) over all sequences of module headers;
+   (a) registry: Model/Registry.v  (Modules.add as repaired by the fix for D30, lookup half of
+       Modules.FindModule, Module.Current / FullName) over all sequences of module headers;
+       [add_old] / [verdicts_old] is the pinned-commit add, used only by the _refuted witnesses;
    (b) file chooser: Model/File.v (findInDir, findFile) over all directory trees.
    Strings are byte lists compared as Go compares strings.  Module names are assumed to be
    '@'-free ([names_ok], [at_free]): they are YANG identifiers. *)
@@ -52,35 +53,27 @@ Theorem C13_duplicate_rejected : forall pre h post,
   nth (length pre) (verdicts (pre ++ h :: post)) true = false.
 Proof. exact duplicate_rejected. Qed.
 
-(* a header whose kind and name were not loaded before is accepted *)
-Theorem C13_fresh_name_accepted : forall pre h post,
-  names_ok (pre ++ h :: post) = true -> existsb (same_kn (h_kind h) (h_name h)) pre = false ->
+(* and every header whose (kind, name, revision) was not loaded before is accepted *)
+Theorem C13_new_key_accepted : forall pre h post,
+  names_ok (pre ++ h :: post) = true -> existsb (same_key h) pre = false ->
   nth (length pre) (verdicts (pre ++ h :: post)) false = true.
-Proof. exact fresh_name_accepted. Qed.
+Proof. exact new_key_accepted. Qed.
 
-(* the verdicts of every sequence, exactly: the specified verdict, except that a header of
-   the D30 shape (no revision, not a duplicate, a same-named header with a revision loaded
-   before it) is rejected *)
-Theorem C13_verdicts_exact : forall hs, names_ok hs = true ->
-  verdicts hs = map_prefix (fun prev h => spec_ok prev h && negb (d30_shape prev h)) [] hs.
-Proof. exact verdicts_exact. Qed.
-
-(* Full statement (fails on the pinned code, D30):
-     forall hs, names_ok hs = true -> verdicts hs = spec_verdicts hs
-   i.e. a header is rejected iff its (kind, name, revision) was loaded before. *)
-Theorem C13_verdicts_partial : forall hs, names_ok hs = true -> d30_free hs = true ->
-  verdicts hs = spec_verdicts hs.
-Proof. exact verdicts_partial. Qed.
+(* the verdicts of every sequence: a header is rejected iff its (kind, name, revision) was
+   loaded before.  Unconditional since the fix for D30 (the model follows the repaired add). *)
+Theorem C13_verdicts : forall hs, names_ok hs = true -> verdicts hs = spec_verdicts hs.
+Proof. exact verdicts_spec. Qed.
 
 Definition hB : header := {| h_id := 0; h_kind := KMod; h_name := [109]; h_revs := [[50;48;50;48;45;48;49;45;48;49]] |}%N.
 Definition hA : header := {| h_id := 1; h_kind := KMod; h_name := [109]; h_revs := [] |}%N.
 
-(* D30: module m revision 2020-01-01, then module m without revision: the second is rejected *)
-Theorem C13_verdicts_refuted : exists hs, names_ok hs = true /\ verdicts hs <> spec_verdicts hs.
+(* D30 at the pinned commit ([add_old]): module m revision 2020-01-01, then module m without
+   revision: the second was rejected *)
+Theorem C13_verdicts_refuted : exists hs, names_ok hs = true /\ verdicts_old hs <> spec_verdicts hs.
 Proof. exists [hB; hA]. split; [reflexivity|]. vm_compute. discriminate. Qed.
 
 (* order independence of the bindings: both maps end up the same under every permutation
-   of headers with pairwise distinct (kind, name, revision) -- no further hypothesis *)
+   of headers with pairwise distinct (kind, name, revision) *)
 Theorem C13_bindings_order_independent : forall hs hs',
   Permutation hs hs' -> distinct_keys hs -> names_ok hs = true ->
   forall k key, mget (sel (final hs) k) key = mget (sel (final hs') k) key.
@@ -91,20 +84,16 @@ Theorem C13_lookups_order_independent : forall hs hs',
   forall k n rev, Registry.find (final hs) k n rev = Registry.find (final hs') k n rev.
 Proof. exact lookups_order_independent. Qed.
 
-(* Full statement (fails on the pinned code, D30):
-     forall hs hs', Permutation hs hs' -> distinct_keys hs -> names_ok hs = true ->
-       forallb (fun b => b) (verdicts hs') = true
-   i.e. distinct headers are all accepted in every load order.  Proved when no name occurs
-   both without and with a revision ([mixed hs = false]). *)
-Theorem C13_all_accepted_partial : forall hs hs',
-  Permutation hs hs' -> distinct_keys hs -> names_ok hs = true -> mixed hs = false ->
+(* order independence of the verdicts: distinct headers are all accepted in every load order *)
+Theorem C13_all_accepted : forall hs hs',
+  Permutation hs hs' -> distinct_keys hs -> names_ok hs = true ->
   forallb (fun b => b) (verdicts hs') = true.
-Proof. exact all_accepted_partial. Qed.
+Proof. exact all_accepted. Qed.
 
-(* D30: accepted in one load order, rejected in the other *)
+(* D30 at the pinned commit ([add_old]): accepted in one load order, rejected in the other *)
 Theorem C13_all_accepted_refuted : exists hs hs',
   Permutation hs hs' /\ distinct_keys hs /\ names_ok hs = true /\
-  forallb (fun b => b) (verdicts hs) = true /\ forallb (fun b => b) (verdicts hs') = false.
+  forallb (fun b => b) (verdicts_old hs) = true /\ forallb (fun b => b) (verdicts_old hs') = false.
 Proof.
   exists [hA; hB], [hB; hA]. split; [apply perm_swap|]. split.
   - unfold distinct_keys. vm_compute. repeat constructor; simpl; intuition discriminate.
@@ -205,13 +194,15 @@ Definition hC : header := {| h_id := 2; h_kind := KMod; h_name := [109];
 Example C13_lookup_ex :
   option_map h_id (Registry.find (final [hB; hC; hA]) KMod [109]%N None) = Some 2%N /\
   option_map h_id (Registry.find (final [hB; hC; hA]) KMod [109]%N (Some [50;48;50;48;45;48;49;45;48;49]%N)) = Some 0%N /\
-  verdicts [hB; hC; hA; hC] = [true; true; false; false] /\
+  verdicts [hB; hC; hA; hC; hA] = [true; true; true; false; false] /\
+  verdicts_old [hB; hC; hA] = [true; true; false] /\
   names_ok [hB; hC; hA] = true.
 Proof. vm_compute. repeat split; reflexivity. Qed.
 
-Example C13_partial_ex :
-  d30_free [hA; hB; hC] = true /\ mixed [hB; hC] = false /\ mixed [hA; hB] = true /\
-  verdicts [hA; hB; hC] = [true; true; true].
+Example C13_all_accepted_ex :
+  verdicts [hA; hB; hC] = [true; true; true] /\ verdicts [hC; hB; hA] = [true; true; true] /\
+  option_map h_id (Registry.find (final [hA; hB; hC]) KMod [109]%N None) = Some 2%N /\
+  option_map h_id (Registry.find (final [hC; hB; hA]) KMod [109]%N None) = Some 2%N.
 Proof. vm_compute. repeat split; reflexivity. Qed.
 
 Example C13_findfile_ex :
